@@ -5,7 +5,7 @@
    `reachable size S` = S is the state after some label sequence from the empty map.
    This file contains statements closed by `exact` only. *)
 From Coq Require Import ZArith List Bool.
-Require Import Semap Product C01_Model C01_Check C01_Theorems C01_Race C01_Int64.
+Require Import Semap Product C01_Model C01_Check C01_Theorems C01_Race C01_Int64 C01_Options.
 Import ListNotations.
 Open Scope Z_scope.
 
@@ -216,6 +216,26 @@ Theorem c01_notify_fit_overflow_refuted :
             held s = [(2%nat, 1); (3%nat, max64)].
 Proof. exact notify_fit_overflow_refuted. Qed.
 
+(* the configuration of a map is a function of the options of ITS OWN constructor call: without WithRwRatio the ratio
+   is DefaultRWRatio = 10, the last WithRwRatio wins, and in a history of constructor calls the i-th map is configured
+   by the i-th option list alone (the case terms of the constructor-history class compute their rwRatio with `options`);
+   a shared default object written through a pointer is refuted *)
+Theorem c01_options_default_ratio : forall l, forallb (fun o => negb (is_ratio o)) l = true -> o_ratio (options l) = 10.
+Proof. exact options_default_ratio. Qed.
+
+Theorem c01_options_last_ratio : forall l r l', forallb (fun o => negb (is_ratio o)) l' = true ->
+  o_ratio (options (l ++ WithRwRatio r :: l')) = r.
+Proof. exact options_last_ratio. Qed.
+
+Theorem c01_ctor_independent_of_earlier : forall h1 h2 l,
+  nth (length h1) (ctor_history (h1 ++ l :: h2)) default_cfg = options l.
+Proof. exact ctor_independent_of_earlier. Qed.
+
+Theorem c01_shared_default_refuted :
+  map o_ratio (leaky_history default_cfg [[WithRwRatio 30]; []]) = [30; 30] /\
+  map o_ratio (ctor_history [[WithRwRatio 30]; []]) = [30; 10].
+Proof. exact shared_default_refuted. Qed.
+
 (* non-vacuity of the monitor and of the correspondence: the pinned tree's observable behaviour on defect 1 is rejected
    (by the residue clause, and by the exclusion clause alone), the repaired tree's is accepted; both outcomes of the
    release/cancel race are accepted, a cancelled waiter that keeps its tokens is rejected *)
@@ -252,6 +272,10 @@ Theorem c01_race_leak_rejected :
 Proof. exact race_leak_rejected. Qed.
 
 Print Assumptions c01_race_commutes.
+Print Assumptions c01_options_default_ratio.
+Print Assumptions c01_options_last_ratio.
+Print Assumptions c01_ctor_independent_of_earlier.
+Print Assumptions c01_shared_default_refuted.
 Print Assumptions c01_int64_quantities_in_range.
 Print Assumptions c01_int64_faithful.
 Print Assumptions c01_int64_faithful_reachable.
